@@ -214,7 +214,19 @@ def MIRI_RUNS(tier):
         return []
     m = dict(flavour="miri", chunk=1, scalable=False, timeout=3000)
     a = dict(flavour="asan", env={"ASAN_OPTIONS": "halt_on_error=1:abort_on_error=0:detect_leaks=1:exitcode=23"})
+    v = dict(flavour="valgrind", timeout=3000)
     return [
+        # valgrind memcheck on the plain release build (stable toolchain), checking allocator off:
+        # invalid reads / writes, uses of uninitialised values, mismatched or double frees, definite leaks
+        dict(family="frag", n=64, params={"prop": "C19", "frag_packets": 30}, **v),
+        dict(family="faulty", n=160, params={"prop": "C19", "packets": 80}, **v),
+        dict(family="alloc-pair", n=64, params={"prop": "C19"}, **v),
+        dict(family="hostile-rx", n=16, params={"batch": 4, "frames": 600}, **v),
+        dict(family="hostile-hc", n=32, params={"batch": 8, "frames": 300}, **v),
+        dict(family="lifecycle", n=96, params={}, **v),
+        dict(family="ep-hostile", n=64, params={"frames": 200}, **v),
+        dict(family="ep-fidelity", n=64, params={}, **v),
+        dict(family="codec-decode", n=16, params={"batch": 1000}, **v),
         # AddressSanitizer + LeakSanitizer (nightly, -Zsanitizer=address), checking allocator off
         dict(family="frag", n=4000, params={"prop": "C19", "frag_packets": 60}, **a),
         dict(family="faulty", n=4000, params={"prop": "C19"}, **a),
